@@ -15,11 +15,62 @@ func init() {
 }
 
 // valid and invalid per-level argvs: spec mismatch, undeclared option, missing value, unconvertible value
-var policyUniverse = [][]string{{}, {"x"}, {"-f", "x"}, {"-z"}, {"-i=zz"}, {"-i", "5"}, {"-o"}, {"zz"}, {"7"}, {"-i=zz", "-i=5"}, {"-"}}
+var policyUniverse = [][]string{{}, {"x"}, {"-f", "x"}, {"-z"}, {"-i=zz"}, {"-i", "5"}, {"-o"}, {"zz"}, {"7"}, {"-i=zz", "-i=5"}, {"-"},
+	// an unconvertible value with a per cent sign: the error stream carries the error text byte for byte
+	{"-i=5%"}}
+
+// c07NoAction: slots of the tree whose command gets no Action (stage policy-no-action; nil elsewhere)
+var c07NoAction map[int]bool
+
+// policyNoAction: command groups without an Action whose own spec requires something. Addressing such a group
+// without the tokens its spec needs is a rejection like any other (an Action-less command only shows its help
+// after its own tokens were validated); accepted invocations that end on an Action-less command are not judged.
+func policyNoAction(c *Ctx) {
+	shape := treeShapes(false)[0]
+	slots := numberSlots(shape)
+	n := 0
+	universe := [][]string{{}, {"x"}, {"-f"}, {"-f", "x"}, {"-z"}, {"7"}, {"zz"}}
+	kindAssignments(len(slots), []int{3, 7, 14}, func(assign []int) {
+		as := append([]int{}, assign...)
+		for mask := 1; mask < 4; mask++ { // the root (slot of shape) and its first child group
+			na := map[int]bool{}
+			if mask&1 != 0 {
+				na[shape.slot] = true
+			}
+			if mask&2 != 0 {
+				na[shape.kids[0].slot] = true
+			}
+			enumPaths(shape, func(target *tnode, names []string) {
+				path := pathNodes(target)
+				per := make([][][]string, len(path))
+				for i, nd := range path {
+					per[i] = levelArgvs(nd, universe)
+				}
+				enumInvocations(path, names, per, func(args []string, own [][]string) {
+					for rp := 0; rp < 3; rp++ {
+						pols := make([]int, len(slots))
+						for i := range pols {
+							pols[i] = -1
+						}
+						pols[0] = rp
+						c07NoAction = na
+						policyCaseV(c, 0, shape, as, pols, append([]string{}, args...), false)
+						c07NoAction = nil
+						n++
+					}
+				})
+			})
+		}
+	})
+	c.Note("groups without an Action", fmt.Sprintf("%d cases: shape 0, specs %q / %q / %q on every level, no Action on the root, on its first child group or on both, per-level argvs %v, three root policies; rejected invocations judged as everywhere, accepted ones that end on an Action-less command not judged", n, lvlKinds[3].spec, lvlKinds[7].spec, lvlKinds[14].spec, universe))
+}
 
 func runPolicy(c *Ctx) {
 	if c.Shard == 0 && c.Begin("policy-versioned") {
 		policyVersioned(c)
+	}
+	if c.Shard == 0 && c.Begin("policy-no-action") {
+		policyNoAction(c)
 	}
 	if c.Shard == 0 && c.Begin("policy-deep") {
 		deepReject(c)
@@ -225,7 +276,14 @@ func replayPolicy(c *Ctx, cs Case) {
 		pols = append(pols, int(x.(float64)))
 	}
 	ver, _ := cs["version_declared"].(bool)
+	if l, ok := cs["no_action"].([]interface{}); ok && len(l) > 0 {
+		c07NoAction = map[int]bool{}
+		for _, x := range l {
+			c07NoAction[int(x.(float64))] = true
+		}
+	}
 	policyCaseV(c, cInt(cs, "shape"), shape, assign, pols, cStrs(cs, "args"), ver)
+	c07NoAction = nil
 }
 
 func policyCase(c *Ctx, si int, shape *tnode, assign, pols []int, args []string) {
@@ -262,10 +320,15 @@ func policyVersioned(c *Ctx) {
 
 func policyCaseV(c *Ctx, si int, shape *tnode, assign, pols []int, args []string, version bool) {
 	rootPol := pols[0]
-	app, tr := buildTree(shape, treeOpts{kinds: assign, pols: pols, rootPol: rootPol, hooks: true, version: version})
+	noAct := c07NoAction
+	app, tr := buildTree(shape, treeOpts{kinds: assign, pols: pols, rootPol: rootPol, hooks: true, version: version, noAction: noAct})
 	o := runIsolated(func() error { return app.Run(append([]string{"app"}, args...)) })
 	r := route(shape, assign, args)
 	c.Count("evaluations", 1)
+	if r.target != nil && noAct[r.target.slot] {
+		c.Count("unclaimed", 1) // ends on a command without an Action: outside C07
+		return
+	}
 	if r.unclaimed {
 		c.Count("unclaimed", 1)
 		return
@@ -275,7 +338,11 @@ func policyCaseV(c *Ctx, si int, shape *tnode, assign, pols []int, args []string
 		key += " Version(\"v version\") declared on the root"
 	}
 	cs := func() Case {
-		return Case{"shape": si, "kinds": assign, "pols": pols, "args": args, "version_declared": version}
+		var na []int
+		for k := range noAct {
+			na = append(na, k)
+		}
+		return Case{"shape": si, "kinds": assign, "pols": pols, "args": args, "version_declared": version, "no_action": na}
 	}
 	obs := fmt.Sprintf("calls=%v returned=%v err=%v panicked=%v panicval=%v exits=%v", tr.calls, o.Returned, o.Err, o.Panicked, safeSprint(o.PanicVal), o.Exits)
 	if r.target != nil {
@@ -311,6 +378,8 @@ func policyCaseV(c *Ctx, si int, shape *tnode, assign, pols []int, args []string
 		bad = "no error text on the error stream before the usage"
 	} else if o.Err != nil && !strings.Contains(o.Stderr[:i], o.Err.Error()) {
 		bad = "the error stream does not carry the text of the returned error"
+	} else if pe, isErr := o.PanicVal.(error); o.Panicked && isErr && pe != nil && !strings.Contains(o.Stderr[:i], pe.Error()) {
+		bad = "the error stream does not carry the text of the error the policy panics with"
 	}
 	if !hasUsageOf(o.Stderr, r.rejectAt) {
 		bad = "the error stream lacks the usage line of the rejecting command: " + usageLine(r.rejectAt, assign)
